@@ -411,7 +411,19 @@ class ANF:
                 env[nm] = ("carried", nm, env[nm], lid)
         if isinstance(s, ast.For):
             tg = s.target
-            if isinstance(tg, (ast.Tuple, ast.List)):
+            dict_items = it[0] == "call" and it[1][0] == "attr" and it[1][2] in ("items", "values") and not it[2] and not it[3]
+            if dict_items and it[1][2] == "items" and isinstance(tg, (ast.Tuple, ast.List)) and len(tg.elts) == 2:
+                # `for k, v in d.items()` is `for k in d.keys(): v = d[k]`
+                d_ = it[1][1]
+                it = ("call", ("attr", d_, "keys"), (), ())
+                self.assign(tg.elts[0], ("loop", lid, 0), env, cond, loops, s)
+                self.assign(tg.elts[1], read(d_, (("loop", lid, 0),)), env, cond, loops, s)
+            elif dict_items and it[1][2] == "values" and isinstance(tg, ast.Name):
+                # `for v in d.values()`: v = d[k] for the keys k of d
+                d_ = it[1][1]
+                it = ("call", ("attr", d_, "keys"), (), ())
+                self.assign(tg, read(d_, (("loop", lid, 0),)), env, cond, loops, s)
+            elif isinstance(tg, (ast.Tuple, ast.List)):
                 self._bind_loop_targets(tg, ("loop", lid), env)
             else:
                 self.assign(tg, ("loop", lid, 0), env, cond, loops, s)
@@ -808,6 +820,12 @@ class ANF:
                         return C(recv[1].format(*[a[1] for a in args]))
                     except Exception:
                         pass
+                if f.attr in ("__eq__", "__ne__") and len(args) == 1 and not kw:
+                    return self.compare("==" if f.attr == "__eq__" else "!=", recv, args[0])
+                if f.attr == "append" and len(args) == 1 and not kw and isinstance(f.value, ast.Name) and f.value.id in env \
+                        and _listlike(env[f.value.id]):
+                    # lst.append(x) is lst += [x] for a local list
+                    env[f.value.id] = ("op", "++", env[f.value.id], ("list", (args[0],)))
                 if f.attr == "get" and len(args) == 1 and not kw:
                     args = args + [C(None)]         # mapping.get(k) is mapping.get(k, None)
                 if f.attr in ARRAY_METHODS_AS_FUNCS and recv[0] not in ("dict", "list", "tuple", "set", "c", "new"):
@@ -1140,6 +1158,8 @@ def _listlike(t):
         return True
     if t[0] == "upd":
         return _listlike(t[1])
+    if t[0] == "carried" and len(t) >= 3:
+        return _listlike(t[2])
     return False
 
 
@@ -1179,11 +1199,15 @@ def _load(t):
 
 
 def _assigned_names(stmts):
+    """names (re)bound in the statements; a local list grown by .append counts (it is modelled as `lst += [x]`)"""
     out = []
     for s in stmts:
         for n in ast.walk(s):
             if isinstance(n, ast.Name) and isinstance(n.ctx, ast.Store) and n.id not in out:
                 out.append(n.id)
+            elif isinstance(n, ast.Call) and isinstance(n.func, ast.Attribute) and n.func.attr == "append" \
+                    and isinstance(n.func.value, ast.Name) and n.func.value.id not in out:
+                out.append(n.func.value.id)
     return out
 
 
